@@ -21,13 +21,14 @@ from props import c13_gen as G
 MANIFEST = {
     "text": "PARTIAL. Explicit-heap Coq model of the library's copy-then-mutate mechanisms (every container-handling "
             "Property.clean incl. ObservableProperty/ExtensionsProperty, _STIXBase.__init__ with dict/list kwargs, "
-            "dict_to_stix2, parse_observable, new_version/revoke, expand/compress/add/clear granular markings, object "
-            "markings, Bundle, MarkingDefinition.__init__, ObjectFactory.create, MemoryStore _add, __deepcopy__, __setattr__) "
+            "dict_to_stix2, parse_observable, new_version/revoke, remove_custom_stix, expand/compress and "
+            "add/clear/remove/set granular markings, object markings, the stix2.markings API dispatch, Bundle, MarkingDefinition.__init__, ObjectFactory.create, MemoryStore _add, __deepcopy__, __setattr__) "
             "with class tables, property defaults and the list of classes overriding __init__ "
             "regenerated from the live classes each run. Theorems for ALL heaps/arguments/class tables: no pre-existing "
             "heap node is written (frame) by any modelled operation (store: only its own table), hence all deep values "
             "are kept; deepcopy yields an equal value in all-new containers; setattr on any property name is refused, "
-            "no property name of the repository is private, delattr of a property is refused; the frame theorem is "
+            "no property name of the repository is private, and -- by an invariant kept by every operation (every instance "
+            "attribute of every library object is private) -- delattr of any public name is refused; the frame theorem is "
             "refuted for the variants without the defensive copies; the frame holds for every operation of the case "
             "language and for every finite HISTORY of operations from any starting heap (values defined at any "
             "step are kept at every later step). Model tied to the code by an aliasing "
@@ -36,9 +37,10 @@ MANIFEST = {
             "before/after snapshot oracle (testing, labelled as such in the evidence).",
     "design_ref": "DESIGN.md 6/C13",
     "note": "Modelled and proved: the skeletons listed in text (allocation/copy/sharing/write structure only; validation "
-            "is not modelled, so the model predicts success where the library may reject). Only snapshot-tested: API-level "
-            "markings (set/remove/get/is_marked), serialization, equality, remove_custom_stix, copy.copy, parse of "
-            "text, filesystem store, Environment, queries, save/load, object similarity. Trusted: Coq kernel + "
+            "is not modelled, so the model predicts success where the library may reject; which ids get_markings returns and "
+            "what is_marked answers is not modelled either, only their heap effect). Only snapshot-tested: validate/iterpath, "
+            "serialization, equality, copy.copy, parse of text, deduplicate, filesystem store, Environment, queries, "
+            "save/load, object similarity (harness/impl/snapshot.py offers the same oracle to other workers). Trusted: Coq kernel + "
             "vm_compute, hand-written heap model (validated each run by the aliasing correspondence), CPython "
             "semantics of dict/list/copy.deepcopy, the snapshot function of harness/impl/c13_impl.py. No axioms.",
     "technique": "Coq proof over a hand model with explicit heap + aliasing correspondence + snapshot oracle",
@@ -155,7 +157,7 @@ def check(run):
     run.coverage["rule"] = (
         "operation sequences over caller-built nested dicts/lists with the same containers reused by several calls "
         "(scenarios: file extensions, observed-data objects, SDOs with list/dict members, granular/object markings, "
-        "bundles and memory stores sharing objects, store get of parsed vs unknown-type dicts, ObjectFactory list "
+        "the stix2.markings API on objects and dicts, bundles and memory stores sharing objects, store get of parsed vs unknown-type dicts, ObjectFactory list "
         "defaults, attribute refusals; plus API/markings/serialization/filesystem/environment sequences that are "
         "snapshot-tested only; plus 10 fixed witnesses of the missing-copy variants); a case is non-trivial when at "
         "least two library calls in it completed without raising")
